@@ -525,7 +525,7 @@ func runFileCase(fc *FileCase, tr *Tr) error {
 			r, off, wh := num(op[1]), int64(num(op[2])), num(op[3])
 			rd, ok := readers[r]
 			if !ok {
-				return fmt.Errorf("reader %d not open", r)
+				continue // its open failed (recorded above, and a violation wherever a reader must open): nothing to seek in
 			}
 			var ret int64
 			var err error
@@ -553,15 +553,14 @@ func runFileCase(fc *FileCase, tr *Tr) error {
 				}
 			}
 		case "read":
-			if _, _, herr := doRead(num(op[1]), num(op[2])); herr != nil {
-				return herr
-			}
+			// (a reader whose open failed - recorded above - has nothing to read from: its operations are skipped)
+			doRead(num(op[1]), num(op[2]))
 		case "readfull":
 			r, k := num(op[1]), num(op[2])
 			for k > 0 {
 				n, err, herr := doRead(r, k)
 				if herr != nil {
-					return herr
+					break
 				}
 				k -= n
 				if err != nil || n == 0 {
@@ -577,10 +576,7 @@ func runFileCase(fc *FileCase, tr *Tr) error {
 					break
 				}
 				_, err, herr := doRead(r, bs)
-				if herr != nil {
-					return herr
-				}
-				if err != nil {
+				if herr != nil || err != nil {
 					break
 				}
 			}
